@@ -284,5 +284,7 @@ theorem evalUnder_order_independent_1 (e : Ex) (π₁ π₂ : EnumOrder) (h₁ :
     cases a with
     | lit sa A => rfl
     | _ => exact absurd ha (by simp [Adm1])
+  | setpat lits rest a => exact absurd ha (by simp [Adm1])
+  | rank a attrs => exact absurd ha (by simp [Adm1])
 
 end Arrai.C07
